@@ -17,6 +17,7 @@ import itertools
 from .. import AnalysisError
 from .. import terms as T
 from ..evalr import Evaluator
+from ..model import walk_no_nested
 from ..mutants import M
 from ..spec import spec
 from .common import SELF, fold, loc_of, self_attr
@@ -476,6 +477,27 @@ def run(ctx):
     from . import c10
     reuse(ctx, lambda c: c10.own_rule(c, only_module="aspire.transforms"), ("C10.own",), "C04own",
           "ownership rule shared with C10: forward / inverse / fit must leave the caller's array untouched")
+    # ---- a log-Jacobian accumulated with in-place updates is accumulated in the transform's precision: the accumulator is allocated with a
+    #      dtype.  `xp.zeros(n)` is float32 under torch whatever the transform was built for, and `acc += term` keeps the accumulator's dtype there,
+    #      so the float64 per-stage terms are rounded to 7 digits (NumPy / JAX would widen or rebind; torch narrows).
+    n_acc = 0
+    for f_ in repo.all_functions():
+        if not f_.ident.startswith("aspire.transforms:"):
+            continue
+        allocs = {}
+        for n_ in walk_no_nested(f_.node):
+            if isinstance(n_, ast.Assign) and len(n_.targets) == 1 and isinstance(n_.targets[0], ast.Name) and isinstance(n_.value, ast.Call) \
+                    and isinstance(n_.value.func, ast.Attribute) and n_.value.func.attr in ("zeros", "ones", "empty", "full"):
+                allocs[n_.targets[0].id] = n_
+        for n_ in walk_no_nested(f_.node):
+            if isinstance(n_, ast.AugAssign) and isinstance(n_.target, ast.Name) and n_.target.id in allocs:
+                a_ = allocs.pop(n_.target.id)
+                n_acc += 1
+                has_dtype = any(k.arg == "dtype" for k in a_.value.keywords)
+                ctx.decide(has_dtype, "C04.alloc", f_.ident, loc_of(f_, a_), f"the accumulator `{n_.target.id}` is allocated with an explicit dtype",
+                           f"`{n_.target.id} = {ast.unparse(a_.value)[:60]}` is allocated in the namespace's default width and then updated in place: under torch (default float32) a transform "
+                           "built for float64 reports its log-Jacobian rounded to float32, so inverse and forward log-Jacobians agree to about 1e-7 only", disc=n_.target.id)
+    ctx.floor("log-Jacobian accumulators updated in place", n_acc, 2)
     from . import cachecoh
     cachecoh.rule(ctx, "C04.stale", ("aspire.transforms",), "the reported log-Jacobian is that of an earlier fit, not of the map now applied")
     # ---- every constructor parameter of a transform takes effect: it is stored, read, or handed to super().__init__ (a parameter that is
@@ -764,8 +786,8 @@ _U = "src/aspire/utils.py"
 MUTANTS = [
     M("logit transform accepts eps and drops it (the base class keeps its default)", _T, "super().__init__(xp=xp, dtype=dtype, lower=lower, upper=upper)\n        self.eps = eps\n\n    def fit(self, x: Array) -> Array:\n        return self.forward(x)[0]\n\n    def forward(self, x: Array) -> tuple[Array, Array]:\n        y, log_j_unit = self.to_unit_interval(x)",
       "super().__init__(xp=xp, dtype=dtype, lower=lower, upper=upper)\n        self.eps = 1e-6\n\n    def fit(self, x: Array) -> Array:\n        return self.forward(x)[0]\n\n    def forward(self, x: Array) -> tuple[Array, Array]:\n        y, log_j_unit = self.to_unit_interval(x)", "C04.wire"),
-    M("fast path for 'volume preserving' composites skips the periodic wrap in forward", _T, "log_abs_det_jacobian = self.xp.zeros(len(x), device=self.device)\n        if self.periodic_parameters:\n            y, log_j_periodic = self._periodic_transform.forward(",
-      "log_abs_det_jacobian = self.xp.zeros(len(x), device=self.device)\n        if not (self.bounded_parameters or self.affine_transform):\n            return x, log_abs_det_jacobian\n        if self.periodic_parameters:\n            y, log_j_periodic = self._periodic_transform.forward(", "C04.order"),
+    M("fast path for 'volume preserving' composites skips the periodic wrap in forward", _T, "log_abs_det_jacobian = self.xp.zeros(\n            len(x), device=self.device, dtype=self.dtype\n        )\n        if self.periodic_parameters:\n            y, log_j_periodic = self._periodic_transform.forward(",
+      "log_abs_det_jacobian = self.xp.zeros(\n            len(x), device=self.device, dtype=self.dtype\n        )\n        if not (self.bounded_parameters or self.affine_transform):\n            return x, log_abs_det_jacobian\n        if self.periodic_parameters:\n            y, log_j_periodic = self._periodic_transform.forward(", "C04.order"),
     M("affine inverse Jacobian sign", _T, "return x, -self.log_abs_det_jacobian * self.xp.ones(", "return x, self.log_abs_det_jacobian * self.xp.ones(", "C04.anti"),
     M("affine inverse forgets mean", _T, "x = y * self._std + self._mean", "x = y * self._std", "C04.rt"),
     M("unit interval inverse Jacobian sign", _T, "log_j = -self._scale_log_abs_det_jacobian * self.xp.ones(", "log_j = self._scale_log_abs_det_jacobian * self.xp.ones(", "C04.anti"),
@@ -824,7 +846,13 @@ MUTANTS += [
     M("composite inverse coerces its input instead of copying it", "src/aspire/transforms.py", "def inverse(self, x):\n        x = copy_array(x, xp=self.xp)\n        x = self.xp.atleast_2d(x)",
       "def inverse(self, x):\n        x = self.xp.asarray(x)\n        x = self.xp.atleast_2d(x)", "C04own.own"),
 ]
+MUTANTS += [
+    M("log-Jacobian accumulator allocated in the namespace's default width", "src/aspire/transforms.py", "log_abs_det_jacobian = self.xp.zeros(\n            len(x), device=self.device, dtype=self.dtype\n        )\n        if self.periodic_parameters:",
+      "log_abs_det_jacobian = self.xp.zeros(len(x), device=self.device)\n        if self.periodic_parameters:", "C04.alloc"),
+]
 NEUTRALS = [
+    M("log-Jacobian built without in-place updates", "src/aspire/transforms.py", "x, log_j_affine = self._affine_transform.forward(x)\n            log_abs_det_jacobian += log_j_affine",
+      "x, log_j_affine = self._affine_transform.forward(x)\n            log_abs_det_jacobian = log_abs_det_jacobian + log_j_affine"),
     M("overflow-safe sigmoid with the right Jacobian", _U, "x = xp.divide(1, 1 + xp.exp(-x))\n    log_j = (xp.log(x) + xp.log1p(-x)).sum(-1)\n    return x, log_j",
       "abs_x = xp.abs(x)\n    exp_neg = xp.exp(-abs_x)\n    y = xp.where(x >= 0, 1 / (1 + exp_neg), exp_neg / (1 + exp_neg))\n    log_j = -(abs_x + 2 * xp.log1p(exp_neg)).sum(-1)\n    return y, log_j"),
     M("affine forward via temporaries", _T, "y = (x - self._mean) / self._std", "centred = x - self._mean\n        y = centred / self._std"),
